@@ -61,6 +61,15 @@ def effRange (m : ColMeta) : Option (Option (Int × Int)) :=
     match ((op.drop 4).toString.dropEnd 1).toString.splitOn "," with
     | [_, o] => o.toInt?
     | _ => none
+  if m.ops.any (fun op => op.startsWith "DictLookup(") then
+    -- dictionary-encoded strings are grouped on the dictionary indices; a compressed index section wider than u8
+    -- would additionally be truncated on decode (`groupby-compressed-key-type`) — not predicted
+    match m.ops with
+    | first :: _ =>
+        if (first.startsWith "LZ4(" ∨ first.startsWith "Pco(") ∧ ¬ (first.startsWith "LZ4(U8" ∨ first.startsWith "Pco(U8") then none
+        else some m.range
+    | [] => none
+  else
   match ops with
   | [] => some m.range
   | [op] =>
@@ -100,6 +109,23 @@ def encInt : Val → Int
   | .int i => i
   | _ => I64_MAX
 def decInt (i : Int) : Val := if i = I64_MAX then .null else .int i
+
+/-- Key encoding for the merge: integers are themselves (NULL = i64::MAX).  A single string / float grouping column
+    is merged by the same generic step functions, which only compare keys; it is represented by the rank of the
+    value in the ascending list `univ` of all values of the column (order-isomorphic), NULL again the maximum. -/
+def rankIn : List Val → Val → Nat → Int
+  | [], _, _ => I64_MAX
+  | u :: us, v, i => if u = v then i else rankIn us v (i + 1)
+
+def encKeys (univs : List (List Val)) (k : List Val) : List Int :=
+  (k.zip (univs ++ List.replicate k.length [])).map fun (v, u) =>
+    if u.isEmpty then encInt v else match v with | .null => I64_MAX | v => rankIn u v 0
+
+def encKey (univ : List Val) (v : Val) : Int :=
+  if univ.isEmpty then encInt v else match v with | .null => I64_MAX | v => rankIn univ v 0
+
+def decKey (univ : List Val) (i : Int) : Val :=
+  if univ.isEmpty then decInt i else if i = I64_MAX then .null else univ.getD i.toNat .null
 
 /-- Integer SUM in row order: error iff some prefix leaves i64 (`overflowing_add`, flag checked after the batch). -/
 def sumChecked : Int → List Int → Option Int
@@ -162,15 +188,15 @@ inductive PartOut where
 def engLt : List Bool → List Val → List Val → Bool
   | nf :: nfs, a :: as, b :: bs =>
       let lt : Bool := match a, b with
-        | .int x, .int y => decide (x < y)
-        | .null, .int _ => nf
-        | .int _, .null => !nf
-        | _, _ => false
+        | .null, .null => false
+        | .null, _ => nf
+        | _, .null => !nf
+        | x, y => valLt x y
       let gt : Bool := match a, b with
-        | .int x, .int y => decide (y < x)
-        | .null, .int _ => !nf
-        | .int _, .null => nf
-        | _, _ => false
+        | .null, .null => false
+        | .null, _ => !nf
+        | _, .null => nf
+        | x, y => valLt y x
       if lt then true else if gt then false else engLt nfs as bs
   | _, _, _ => false
 
@@ -194,6 +220,18 @@ def keyNullFirst (single : Bool) (m : ColMeta) : Option Bool :=
       if !m.nullable then some true
       else if single then some (singleKeyPlan range true).2.isSome
       else some true
+
+/-- A single string grouping column.  Dictionary-encoded: grouped on the (sorted) dictionary's indices like an
+    integer column, NULL fused to raw key 0, hence FIRST; packed / hex-packed strings: hash grouping followed by a
+    sort that puts NULL last.  A single non-nullable float column: hash grouping + ascending sort. -/
+def singleOtherKeyNullFirst (kind : ColKind) (m : ColMeta) : Option Bool :=
+  if !m.present then none else
+  match kind with
+  | .float => if m.nullable then none else some false
+  | _ =>
+      if m.ops.any (fun op => op.startsWith "DictLookup(") then some m.nullable
+      else if m.ops.any (fun op => op = "UnpackStrings" ∨ op.startsWith "UnhexpackStrings(") then some false
+      else none
 
 /-- Open finding `groupby-compressed-key-type`: with several (bit-packed) grouping columns the unpacked key is cast back
     to `plan_type.encoding_type()`, the type of the column's FIRST DATA SECTION; for an lz4 / pco compressed column
@@ -224,9 +262,23 @@ def emitKey (m : ColMeta) (v : Val) : Val :=
   | _, v => v
 
 /-- The partial result of one partition. -/
-def partitionResult (keys : List Nat) (iaggs : List IAgg) (metas : List ColMeta) (kept : List Row) : PartOut :=
+def partitionResult (keys : List Nat) (iaggs : List IAgg) (metas : List ColMeta) (kept : List Row)
+    (keyKinds : List ColKind := []) : PartOut :=
   let keyMetas := keys.map fun c => metas.getD c ColMeta.absent
-  match keyMetas.mapM (keyNullFirst (keys.length = 1)) with
+  let kinds := keyKinds ++ List.replicate (keys.length - keyKinds.length) ColKind.int
+  let keyKind := if kinds.all (· = .int) then ColKind.int else ColKind.other
+  let nf := if keys.length = 1 then
+              (match kinds.headD .int with
+               | .int => keyMetas.mapM (keyNullFirst true)
+               | k => keyMetas.mapM (singleOtherKeyNullFirst k))
+            else (keyMetas.zip kinds).mapM fun (m, k) =>
+              match k with
+              | .int => keyNullFirst false m
+              | .float => none
+              | .other =>
+                  -- a dictionary-encoded string column among several bit-packed grouping columns
+                  if m.present ∧ m.ops.any (fun op => op.startsWith "DictLookup(") ∧ (effRange m).isSome then some true else none
+  match nf with
   | none => .unknown
   | some nullFirst =>
     -- several keys must be bit-packable
@@ -237,7 +289,7 @@ def partitionResult (keys : List Nat) (iaggs : List IAgg) (metas : List ColMeta)
       | .cnt1 => none | .cnt c => some c | .sum c => some c | .min c => some c | .max c => some c
     if !packable || aggCols.any (fun c => !(metas.getD c ColMeta.absent).present) then .unknown else
     let groups := groupRows keys kept
-    if groups.any (fun g => g.1.any fun v => match v with | .int _ | .null => false | _ => true) then .unknown else
+    if keyKind = .int ∧ groups.any (fun g => g.1.any fun v => match v with | .int _ | .null => false | _ => true) then .unknown else
     let ordered := sortBy (fun a b => engLt nullFirst a.1 b.1) groups
     let nullableCol := fun c => (metas.getD c ColMeta.absent).nullable
     let rec go : Groups → PartOut
@@ -287,9 +339,9 @@ inductive MRes where
   | fault
   | unknown
 
-def mergePRes (iaggs : List IAgg) (isFloat : IAgg → Bool) (nk : Nat) (a b : PRes) : MRes :=
-  let ka := (transposeCols a.keys nk).map (·.map encInt)
-  let kb := (transposeCols b.keys nk).map (·.map encInt)
+def mergePRes (univs : List (List Val)) (iaggs : List IAgg) (isFloat : IAgg → Bool) (nk : Nat) (a b : PRes) : MRes :=
+  let ka := transposeCols (a.keys.map (encKeys univs)) nk
+  let kb := transposeCols (b.keys.map (encKeys univs)) nk
   match mergeKeys ka kb with
   | none => .fault
   | some (kcols, ops) =>
@@ -315,15 +367,15 @@ def mergePRes (iaggs : List IAgg) (isFloat : IAgg → Bool) (nk : Nat) (a b : PR
       | some (.error .fault) => .fault
       | some (.ok acols) =>
           let n := (kcols.head?.map List.length).getD ((acols.head?.map List.length).getD 0)
-          let keyRows := (List.range n).map fun i => kcols.map fun c => decInt (c.getD i 0)
+          let keyRows := (List.range n).map fun i => (kcols.zip (univs ++ List.replicate nk [])).map fun (c, u) => decKey u (c.getD i 0)
           let aggRows := (List.range n).map fun i => acols.map fun c => c.getD i .null
           .ok ⟨keyRows, aggRows⟩
 
-def evalPTree (iaggs : List IAgg) (isFloat : IAgg → Bool) (nk : Nat) (parts : List PRes) : Tree → MRes
+def evalPTree (univ : List (List Val)) (iaggs : List IAgg) (isFloat : IAgg → Bool) (nk : Nat) (parts : List PRes) : Tree → MRes
   | .leaf i => match parts[i]? with | some p => .ok p | none => .fault
   | .node l r =>
-      match evalPTree iaggs isFloat nk parts l, evalPTree iaggs isFloat nk parts r with
-      | .ok a, .ok b => mergePRes iaggs isFloat nk a b
+      match evalPTree univ iaggs isFloat nk parts l, evalPTree univ iaggs isFloat nk parts r with
+      | .ok a, .ok b => mergePRes univ iaggs isFloat nk a b
       | .ok _, e => e
       | e, _ => e
 
@@ -357,17 +409,17 @@ def finalRows (sel : List SelItem) (keys : List Nat) (p : PRes) : Out :=
   | none => .overflow
 
 /-- Outcome along one merge tree. -/
-def runTree (sel : List SelItem) (keys : List Nat) (iaggs : List IAgg) (isFloat : IAgg → Bool)
+def runTree (univ : List (List Val)) (sel : List SelItem) (keys : List Nat) (iaggs : List IAgg) (isFloat : IAgg → Bool)
     (parts : List PRes) (t : Tree) : Out :=
-  match evalPTree iaggs isFloat keys.length parts t with
+  match evalPTree univ iaggs isFloat keys.length parts t with
   | .ok p => finalRows sel keys p
   | .overflow => .overflow
   | .fault => .fault
   | .unknown => .unknown
 
 /-- Is the key part of a partial result ascending under the merge comparator (in-band i64 order)? -/
-def keysAscending (p : PRes) : Bool :=
-  let enc := p.keys.map (·.map encInt)
+def keysAscending (univs : List (List Val)) (p : PRes) : Bool :=
+  let enc := p.keys.map (encKeys univs)
   let rec asc : List (List Int) → Bool
     | a :: b :: t => GroupMerge.tupleLt a b && asc (b :: t)
     | _ => true
